@@ -107,11 +107,14 @@ def consumption(repo: Repo, chk: Check) -> None:
         rd = ReachingDefs(m)
         calls = [x for x in body_nodes(m.node) if isinstance(x, ast.Call) and unparse(x.func) == helper]
         site = Site.of(m, calls[0] if calls else None, None if calls else f"{mname}: helper call")
-        ok = len(calls) == 1 and calls[0].args and unparse(calls[0].args[0]) == "self._view"
+        from .util import args_of
+
+        ca = {k: unparse(v) for k, v in args_of(repo, m, calls[0]).items()} if len(calls) == 1 else {}
+        ok = len(calls) == 1 and ca.get("data") == "self._view"
         chk.ob("O1", site, bool(ok), f"decodes at the current position with {helper}" if ok else f"{mname} does not decode self._view with {helper}")
         if not ok:
             continue
-        kws = {k.arg: unparse(k.value) for k in calls[0].keywords if k.arg}
+        kws = ca
         okk = kws.get("tag") == "tag" and kws.get("header") == "header"
         chk.ob("O1", site, okk, "caller's tag and header passed on" if okk else f"tag/header arguments are {kws}")
         adv = [x for x in body_nodes(m.node) if isinstance(x, ast.Assign) and unparse(x.targets[0]) == "self._view"]
@@ -161,8 +164,11 @@ def consumption(repo: Repo, chk: Check) -> None:
                 d = rd.single_def(v.elts[1].id, r)  # type: ignore[union-attr]
                 okc = d is not None and d.value is vts[0] and d.index == 1
             chk.ob("O1", Site.of(h, r), bool(okc), "consumed count returned unchanged" if okc else f"{helper} returns '{unparse(v)[:60]}': the consumed count is not the one computed by _validate_tag")
-        a = vts[0].args
-        okd = bool(a) and unparse(a[0]) == h.params[0]
+        from .util import args_of as _args_of
+
+        va = _args_of(repo, h, vts[0])
+        first = va.get("data") if "data" in va else (vts[0].args[0] if vts[0].args else None)
+        okd = first is not None and unparse(first) == h.params[0]
         chk.ob("O1", site, okd, "validates the data it was given")
     validate_tag(repo, chk)
 
